@@ -128,6 +128,10 @@ var xrefPool = []file{
 	{segs: []string{"env", "types", "vers.pp"}, body: xSet("Vers", []string{"Ta"}, nil, tsref{set: "Other", major: 2})},
 	{segs: []string{"env", "types", "twice.pp"}, body: xSet("Twice", []string{"Ta", "Tb"}, nil, tsref{set: "Other", member: "Tx"}, tsref{set: "Other"})},
 	{segs: []string{"env", "types", "both.pp"}, body: xSet("Both", []string{"Ta"}, nil, tsref{set: "Other", member: "Ty"}, tsref{set: "Other", major: 2})},
+	// names that COLLIDE with what a type set resolves internally: a file for Ref0::Tx (inside Set the alias Ref0 is the
+	// reference to Other: typeSet.GetType answers, the file is not consulted) and a global Ta (inside a set its member Ta)
+	{segs: []string{"env", "types", "ref0", "tx.pp"}, body: xAlias("Ref0::Tx")},
+	{segs: []string{"env", "types", "ta.pp"}, body: xObject("Ta")},
 	{segs: []string{"env", "types", "self.pp"}, body: xAlias("Self", "Self", "E")},
 	{segs: []string{"modules", "mymod", "types", "thing.pp"}, body: xAlias("Mymod::Thing", "A", "Mymod::Sub::X")},
 	{segs: []string{"modules", "mymod", "types", "sub", "x.pp"}, body: xObject("Mymod::Sub::X", "Mymod::Thing", "Mymod::Tb")},
@@ -135,7 +139,7 @@ var xrefPool = []file{
 }
 
 var xrefNames = []string{"A", "B", "C", "D", "E", "Set", "Set::Ta", "Set::Tb", "SET::TC", "Set::Ref0", "Set::Ref0::Tx", "Other", "Other::Tx",
-	"other::ty", "Ns::Deep", "Self", "Mymod::Thing", "Mymod::Sub::X", "Mymod", "Mymod::Tb", "MYMOD::ta", "Mymod::Ref1::Ty", "Nope", "a", "d", "E", "Vers", "Vers::Ta", "Twice", "Twice::Tb", "Both", "Both::Ta", "Other"}
+	"other::ty", "Ns::Deep", "Self", "Mymod::Thing", "Mymod::Sub::X", "Mymod", "Mymod::Tb", "MYMOD::ta", "Mymod::Ref1::Ty", "Nope", "a", "d", "E", "Vers", "Vers::Ta", "Twice", "Twice::Tb", "Both", "Both::Ta", "Other", "Ref0::Tx", "Ta"}
 
 var xrefVias = []string{"g", "d", "m:mymod"}
 
@@ -291,6 +295,29 @@ func randXref(r *rand.Rand) spec {
 			names = append(names, nd.name+"::"+m)
 			if j == 0 {
 				names = append(names, nd.name+"::Ref0", nd.name+"::Nope")
+			}
+		}
+	}
+	// files whose names collide with what a type set resolves internally (reference alias Ref0::M, sibling member M)
+	added := map[string]bool{}
+	for _, f := range append([]file{}, s.files...) {
+		if f.body.kind != "typeset" {
+			continue
+		}
+		if len(f.body.tsrefs) > 0 && f.body.tsrefs[0].member != "" && r.Intn(3) == 0 {
+			m := f.body.tsrefs[0].member
+			if p := "ref0/" + strings.ToLower(m); !added[p] {
+				added[p] = true
+				s.files = append(s.files, file{segs: []string{"env", "types", "ref0", strings.ToLower(m) + ".pp"}, body: xAlias("Ref0::" + m)})
+				names = append(names, "Ref0::"+m)
+			}
+		}
+		if r.Intn(4) == 0 {
+			m := f.body.types[0]
+			if p := strings.ToLower(m); !added[p] {
+				added[p] = true
+				s.files = append(s.files, file{segs: []string{"env", "types", strings.ToLower(m) + ".pp"}, body: xObject(m)})
+				names = append(names, m)
 			}
 		}
 	}
